@@ -508,7 +508,7 @@ func c03Structural(w *run.Worker) {
 // c03Chains: if/elif chains of 3 and 4 branches whose conditions compare ONE name with literals, some
 // literal repeated, the operands in either order: the first branch whose condition holds runs, whatever
 // a table built from the literals would say.
-func c03Chains(w *run.Worker) {
+func c03Chains(w *run.Worker, exec func(part string, stmts []*rt.Node)) {
 	I, S, Id := rt.Int, rt.Str, rt.Id
 	conds := []nodeFn{
 		func() *rt.Node { return rt.Bin("==", Id("x"), S("a")) }, func() *rt.Node { return rt.Bin("==", Id("x"), S("b")) },
@@ -536,7 +536,7 @@ func c03Chains(w *run.Worker) {
 					if withElse {
 						args = append(args, rt.Block(rt.Call("p", I(0))))
 					}
-					c03Exec(w, "chain", []*rt.Node{rt.Assign("=", Id("x"), v()), rt.If(args...), rt.Call("p", I(9))})
+					exec("chain", []*rt.Node{rt.Assign("=", Id("x"), v()), rt.If(args...), rt.Call("p", I(9))})
 				}
 			}
 		}
@@ -546,7 +546,7 @@ func c03Chains(w *run.Worker) {
 // c03Rounds: loop bodies whose statements depend on the round: a name assigned at body level in one
 // round, inside a nested block in another, read in between and after the loop. Every round starts with
 // a fresh body frame; a name first assigned inside a nested block ends with that block.
-func c03Rounds(w *run.Worker) {
+func c03Rounds(w *run.Worker, exec func(part string, stmts []*rt.Node)) {
 	I, Id := rt.Int, rt.Id
 	for _, name := range []string{"y", "pk"} {
 		y := func() *rt.Node { return Id(name) }
@@ -582,7 +582,7 @@ func c03Rounds(w *run.Worker) {
 						body = append(body, pool[c%len(pool)]())
 						c /= len(pool)
 					}
-					c03Exec(w, "rounds", []*rt.Node{l(rt.Block(body...)), rt.Call("p", y())})
+					exec("rounds", []*rt.Node{l(rt.Block(body...)), rt.Call("p", y())})
 				}
 			}
 		}
@@ -624,7 +624,7 @@ func c03DupNames(w *run.Worker) {
 // fresh name or a variable of the enclosing block, bounds that are constants, another variable, an
 // expression reading the counter; bodies that leave it alone, change it, change the bound, break or
 // continue. The counter and everything else are read after the loop: the loop runs clause by clause.
-func c03Counted(w *run.Worker) {
+func c03Counted(w *run.Worker, exec func(part string, stmts []*rt.Node)) {
 	I, Id := rt.Int, rt.Id
 	for _, c := range []string{"i", "x"} {
 		cv := func() *rt.Node { return Id(c) }
@@ -654,14 +654,14 @@ func c03Counted(w *run.Worker) {
 						}
 						stmts := []*rt.Node{rt.Assign("=", Id("x"), I(7)), rt.Assign("=", Id("b"), I(4)),
 							rt.For(in(), cd(), po(), rt.Block(bd()...)), rt.Call("p", cv(), Id("x"), Id("b"))}
-						c03Exec(w, "counted-loop", stmts)
+						exec("counted-loop", stmts)
 						if !w.Take() {
 							continue
 						}
 						// the same loop one block down, its counter declared in the enclosing block
 						stmts = []*rt.Node{rt.Assign("=", Id("b"), I(4)), rt.Assign("=", cv(), I(9)),
 							rt.If(rt.Bool(true), rt.Block(rt.For(in(), cd(), po(), rt.Block(bd()...)), rt.Call("p", cv()))), rt.Call("p", cv(), Id("b"))}
-						c03Exec(w, "counted-loop", stmts)
+						exec("counted-loop", stmts)
 					}
 				}
 			}
@@ -670,10 +670,10 @@ func c03Counted(w *run.Worker) {
 }
 
 func c03Run(w *run.Worker) {
-	c03Counted(w)
+	c03Counted(w, func(part string, stmts []*rt.Node) { c03Exec(w, part, stmts) })
 	c03DupNames(w)
-	c03Chains(w)
-	c03Rounds(w)
+	c03Chains(w, func(part string, stmts []*rt.Node) { c03Exec(w, part, stmts) })
+	c03Rounds(w, func(part string, stmts []*rt.Node) { c03Exec(w, part, stmts) })
 	c03Truthiness(w)
 	c03ForIn(w)
 	c03ForInAgain(w)
